@@ -34,7 +34,11 @@ RULE = (
     "given as legacy str SAN), requests = (CN or None, 0-3 SANs), biased to re-request the newest, the oldest-still-cached "
     "and the just-evicted key; custom certificates registered under exact / wildcard / '*' specs and via their own CN/SANs "
     "at random points; distinct = (eviction bucket, hit bucket, kinds of custom registration matched, IP/wildcard/legacy/"
-    "no-CN request features, length class); non-trivial = the history caused >= 1 eviction and >= 1 cache hit"
+    "no-CN request features, length class); non-trivial = the history caused >= 1 eviction and >= 1 cache hit. 35% of the "
+    "histories are 'focused': 30-100 calls over a 9-name pool from three zones, 2-4 CNs re-requested with changing SAN "
+    "lists (0-2 SANs unrelated to the CN), 1-3 custom certificates (exact / covering wildcard / '*') for names of the same "
+    "pool, a fresh CertStore per history in one process; such a history is non-trivial when a custom certificate was "
+    "returned at least once and a CN was answered with a generated certificate under >= 2 different SAN lists"
 )
 ASSUMPTIONS = [
     "capacity is CertStore.STORE_CAP read at run time; eviction order is FIFO by generation (the documented expire_queue)",
@@ -114,10 +118,27 @@ def one_history(ctx, storedir):
     store = certs.CertStore.from_store(storedir, "mitmproxy", 2048)
     cap = certs.CertStore.STORE_CAP
     model = CertCacheModel(cap)
-    n_calls = r.choice([40, 130, 160, 220, 300, 400])
-    pool = r.sample(UNIVERSE, r.choice([30, 110, 150, len(UNIVERSE)]))
-    n_custom = r.choice([0, 0, 1, 1, 2, 4, 7])
-    custom_steps = set(r.sample(range(n_calls), n_custom))
+    focused = r.random() < 0.35
+    if focused:
+        # small pool, few CNs re-used with changing SAN lists, custom certs for names of the same pool:
+        # exercises "a custom certificate is only returned for the names of THIS request" across requests
+        # that share a CN (and across CertStore instances of one process).
+        n_calls = r.choice([30, 60, 100])
+        pool = (r.sample([n for n in UNIVERSE if n[1].endswith(".a.b.example.com") and n[1].startswith("h")], 3)
+                + r.sample([n for n in UNIVERSE if n[1].endswith(".test.org") and n[1].startswith("h")], 3)
+                + r.sample([n for n in UNIVERSE if n[1].endswith(".example.com") and n[1].startswith("h") and ".b." not in n[1]], 2)
+                + r.sample([n for n in UNIVERSE if n[0] == "ip"], 1))
+        cn_pool = [n[1] for n in r.sample(pool[:8], r.choice([2, 3, 4]))]
+        n_custom = r.choice([1, 2, 3])
+        custom_steps = set(r.sample(range(max(2, n_calls * 2 // 3)), n_custom))
+    else:
+        n_calls = r.choice([40, 130, 160, 220, 300, 400])
+        pool = r.sample(UNIVERSE, r.choice([30, 110, 150, len(UNIVERSE)]))
+        cn_pool = []
+        n_custom = r.choice([0, 0, 1, 1, 2, 4, 7])
+        custom_steps = set(r.sample(range(n_calls), n_custom))
+    cn_sans_seen = {}  # cn -> set of SAN tuples requested with it
+    varied_cn_generated = False
     custom_entries = {}  # label -> entry
     custom_ids = {}  # id(entry) -> label
     by_key = {}  # model key -> entry returned when generated
@@ -143,6 +164,8 @@ def one_history(ctx, storedir):
             k = None
         if k is not None:
             return k[0], list(k[1]), False
+        if focused and x < 0.9:
+            return r.choice(cn_pool), [r.choice(pool) for _ in range(r.choice([0, 0, 1, 1, 2]))], False
         nsan = r.choice([0, 1, 1, 1, 2, 3])
         sans = [r.choice(pool) for _ in range(nsan)]
         cn_src = r.choice(pool)
@@ -162,7 +185,7 @@ def one_history(ctx, storedir):
         if step in custom_steps:
             # ---- custom registration
             label = f"custom{len(custom_entries)}"
-            ccn = r.choice([None, r.choice(pool)[1]])
+            ccn = r.choice([None, None, None, r.choice(pool)[1]] if focused else [None, r.choice(pool)[1]])
             if ccn is not None and (len(ccn) >= 64 or ":" in ccn):
                 ccn = None
             csans = [r.choice(pool) for _ in range(r.choice([0, 0, 1, 2]))]
@@ -246,6 +269,12 @@ def one_history(ctx, storedir):
             else:
                 # ---- generated certificate returned
                 ctx.count("names_generated")
+                if cn is not None:
+                    seen = cn_sans_seen.setdefault(cn, set())
+                    seen.add(tuple(sans))
+                    if len(seen) > 1 and custom_entries:
+                        varied_cn_generated = True
+                        feats.add("same-cn-other-sans-with-customs-registered")
                 if candidates:
                     ctx.count("generated_despite_custom_match")
                 got_cn, got_sans = read_cert(entry)
@@ -294,8 +323,9 @@ def one_history(ctx, storedir):
             break
     ev_b = 0 if model.evictions == 0 else 1 if model.evictions < 10 else 2 if model.evictions < 50 else 3
     hit_b = 0 if hits == 0 else 1 if hits < 20 else 2
-    sig = (ev_b, hit_b, n_custom, tuple(sorted(custom_kinds)), tuple(sorted(feats)), n_calls)
-    ctx.case(sig, nontrivial=model.evictions >= 1 and hits >= 1,
+    sig = (focused, ev_b, hit_b, n_custom, tuple(sorted(custom_kinds)), tuple(sorted(feats)), n_calls)
+    nontrivial = (model.evictions >= 1 and hits >= 1) or (focused and "custom-returned" in feats and varied_cn_generated)
+    ctx.case(sig, nontrivial=nontrivial,
              sample={"calls": n_calls, "evictions": model.evictions, "hits": hits, "head": hist[:4], "tail": hist[-3:]})
 
 
